@@ -110,18 +110,20 @@ pub mod verif {
     #![allow(missing_docs)]
     use std::sync::{Arc, Mutex};
 
-    /// Called on the compile thread before compilation starts, with (computation id, party).
-    pub type Gate = Arc<dyn Fn(uuid::Uuid, usize) + Send + Sync>;
+    /// Called with (computation id, party, on_compile_thread): first on the actor's task right
+    /// before the compile thread is spawned (`false`), then on the compile thread before
+    /// compilation starts (`true`).
+    pub type Gate = Arc<dyn Fn(uuid::Uuid, usize, bool) + Send + Sync>;
     static GATE: Mutex<Option<Gate>> = Mutex::new(None);
 
     pub fn set_compile_gate(g: Option<Gate>) {
         *GATE.lock().expect("gate lock") = g;
     }
 
-    pub(crate) fn compile_gate(id: uuid::Uuid, party: usize) {
+    pub(crate) fn compile_gate(id: uuid::Uuid, party: usize, on_compile_thread: bool) {
         let g = GATE.lock().expect("gate lock").clone();
         if let Some(g) = g {
-            g(id, party)
+            g(id, party, on_compile_thread)
         }
     }
 }
